@@ -133,6 +133,8 @@ type Result struct {
 	NT       []string  `json:"nt,omitempty"`      // non-trivial keys (hashed)
 	Partial  string    `json:"partial,omitempty"` // path of the child's ev.Partial
 	NFns     int       `json:"n_fns,omitempty"`
+	// lib: the worker stopped early (its heap grew); resume at this function
+	NextFn int `json:"next_fn,omitempty"`
 }
 
 // Inflight is the marker a worker writes before every case.
@@ -220,11 +222,13 @@ func runChild(job Job, timeout time.Duration) childExit {
 	for _, e := range os.Environ() {
 		k := e[:strings.IndexByte(e+"=", '=')]
 		switch k {
-		case "VERIF_OUT", "VERIF_REPLAY", "C04_JOB", "GOTRACEBACK", "GOGC", "GOMEMLIMIT":
+		case "VERIF_OUT", "VERIF_REPLAY", "C04_JOB", "GOTRACEBACK", "GOGC", "GOMEMLIMIT", "TMPDIR":
 			continue
 		}
 		env = append(env, e)
 	}
+	os.MkdirAll(filepath.Join(dir, "tmp"), 0o755)
+	env = append(env, "TMPDIR="+filepath.Join(dir, "tmp")) // os.tmpname/io.tmpfile land in the scratch dir
 	env = append(env, "C04_JOB="+jobFile, "VERIF_OUT="+filepath.Join(dir, "partial.json"), "GOTRACEBACK=single")
 	cmd.Env = env
 	start := time.Now()
@@ -256,7 +260,7 @@ func runChild(job Job, timeout time.Duration) childExit {
 		x.hang = true
 		return x
 	}
-	if x.res != nil && x.res.Done && runErr == nil {
+	if x.res != nil && (x.res.Done || x.res.NextFn > 0) && runErr == nil {
 		return x
 	}
 	// abnormal end
@@ -404,7 +408,7 @@ var quickBudget bool // child: use the quick tier's budgets for recursion templa
 func TestC04(t *testing.T) {
 	rec := ev.New("C04")
 	defer Finish(t, rec)
-	rec.Rule("One predicate over four generators, all run in child processes (RLIMIT_AS 4 GiB): the outcome of compile+run is a value, a Lua error or a killed context; a Go panic reaching the host's recover, a child dying with 'fatal error:'/'panic:'/a signal, or a limit template returning anything but a compile error or its Go-computed checksum is a violation; a child timeout is inconclusive (discarded). Non-trivial: source - the chunk compiles or its error position lies after the first non-blank byte (scanner and parser accepted at least one token); library - the call returned, or raised something that is not an argument-count/type/flag complaint; limit - size parameter beyond the encoding limit of its template; recursion - every template. Distinct by hash of (source bytes | function+argument names | template+size).")
+	rec.Rule("One predicate over four generators, all run in child processes (RLIMIT_AS 6 GiB): the outcome of compile+run is a value, a Lua error or a killed context; a Go panic reaching the host's recover, a child dying with 'fatal error:'/'panic:'/a signal, or a limit template returning anything but a compile error or its Go-computed checksum is a violation; a child timeout is inconclusive (discarded). Non-trivial: source - the chunk compiles or its error position lies after the first non-blank byte (scanner and parser accepted at least one token); library - the call returned, or raised something that is not an argument-count/type/flag complaint; limit - size parameter beyond the encoding limit of its template; recursion - every template. Distinct by hash of (source bytes | function+argument names | template+size).")
 	rec.Assume("text chunks only: the bytes generators use CompileAndLoadLuaChunk/CompileLuaChunkOrExp, and load() is only given text or genuine string.dump output (the manual allows malicious binary chunks to crash the interpreter)")
 	rec.Assume("excluded by name: os.exit (documented effect is process exit), golib.import (shells out to the Go toolchain), io.read and io.lines without a file name (stdin), debug.sethook (changes the harness), os.execute/io.popen unless the command is the fixed string 'true' or not a string; file names are relative to a per-child scratch directory")
 	rec.Assume("accepted random sources are run with dangerous os/io functions replaced by a function that raises an error, a budget of 200k CPU ticks and 64 MB")
@@ -502,9 +506,9 @@ func TestC04Child(t *testing.T) {
 		t.Fatal(err)
 	}
 	// address-space limit: a runaway allocation kills this child, not the machine
-	lim := syscall.Rlimit{Cur: 4 << 30, Max: 4 << 30}
+	lim := syscall.Rlimit{Cur: 6 << 30, Max: 6 << 30}
 	syscall.Setrlimit(syscall.RLIMIT_AS, &lim)
-	debug.SetMemoryLimit(3 << 30) // collect harder before hitting the wall
+	debug.SetMemoryLimit(4 << 30) // collect harder before hitting the wall
 	childMain(job)
 }
 
